@@ -272,6 +272,66 @@ impl C09 {
     }
 }
 
+impl C09 {
+    /// Collect every table the WOFF2 provider returns, assemble them with the harness's own sfnt
+    /// writer and run the cross-table validator (container-level rules do not apply to this copy).
+    fn woff2_tables(&mut self, cx: &mut Ctx, case: &Case) {
+        let bytes = &case.bytes;
+        let got = cx.guard("woff2-provider-tables", bytes.len(), || -> Result<Vec<(u32, Vec<u8>)>, String> {
+            let fd = ReadScope::new(bytes).read::<FontData<'_>>().map_err(|e| format!("FontData: {:?}", e))?;
+            let p = fd.table_provider(0).map_err(|e| format!("table_provider: {:?}", e))?;
+            let mut v = Vec::new();
+            for t in p.table_tags().unwrap_or_default() {
+                match p.table_data(t) {
+                    Ok(Some(d)) => v.push((t, d.to_vec())),
+                    Ok(None) => return Err(format!("listed table {} is absent", tag_str(t))),
+                    Err(e) => return Err(format!("table {}: {:?}", tag_str(t), e)),
+                }
+            }
+            Ok(v)
+        });
+        let tables = match got {
+            Some(Ok(t)) => t,
+            Some(Err(e)) => {
+                // the harness's own encoder made this file from a font the independent reader accepts
+                cx.violation("woff2-tables", "woff2-provider:tables-not-readable", case.witness(e));
+                return;
+            }
+            None => return,
+        };
+        let mut f = sfnt::Font::new(case.src.font.version);
+        for (t, d) in tables {
+            f.set(t, d);
+        }
+        let rebuilt = f.build();
+        let (findings, facts) = validate(&rebuilt, &Opts { cross_table: true, ..Default::default() });
+        let inherited = source_findings(&case.src);
+        let mut clean = true;
+        for fi in &findings {
+            if fi.rule == "container" {
+                continue;
+            }
+            if inherited.contains(&fi.sig) {
+                cx.class(&format!("inherited-from-source:{}", fi.sig));
+                continue;
+            }
+            clean = false;
+            cx.violation(fi.rule, &format!("woff2-provider:{}", fi.sig), case.witness(format!("{} (tables handed out by the WOFF2 provider)", fi.detail)));
+        }
+        if clean {
+            cx.class("validated:woff2-provider-tables");
+            if facts.has_glyf && matches!(case.container, Container::Woff2 { glyf_transform: true, .. }) {
+                let src_long = crate::sfnt::tables::Head::read(case.src.font.gets("head").unwrap_or(&[])).map_or(false, |h| h.index_to_loc_format != 0);
+                cx.class(match (src_long, facts.loca_long) {
+                    (false, true) => "woff2-reconstruction:short-loca-upgraded-to-long",
+                    (false, false) => "woff2-reconstruction:short-loca-kept",
+                    (true, _) => "woff2-reconstruction:long-loca",
+                });
+            }
+        }
+    }
+}
+
 impl Prop for C09 {
     fn case(&mut self, cx: &mut Ctx, rng: &mut Rng) {
         let roll = rng.below(20);
@@ -324,6 +384,11 @@ impl Prop for C09 {
             let (container, bytes) = wrap(&src, rng, choice);
             Case { src, ids: vec![0], id_mode: "n/a".into(), op: Op::Instance { coords }, container, bytes }
         };
+        // "tables reconstructed from WOFF2 ... are mutually consistent": judged directly on what the
+        // WOFF2 table provider hands out (not only through whole_font, which may fail on them)
+        if matches!(case.container, Container::Woff2 { .. }) {
+            self.woff2_tables(cx, &case);
+        }
         let out = match run_op(cx, &case) {
             None => return,
             Some(Err(e)) => {
